@@ -242,9 +242,10 @@ def _backoff_kernel(now, interval, rate, maxatt, k, has_rate):
         ev = stubs.running_event("T", {"x": 1}, "EXPRESS", entered="ENTERED", start="START", extra_state={"RetryCount": k, "RetryTimeout": 0})
         eng.notify(ev, "id1")
         # deferral of the (re)entered Task: RetryTimeout 0 here
-        (cb0, d0) = list(eng.event_dispatcher.timers.values())[0]
+        pending = list(eng.event_dispatcher.timers.values())
         eng.event_dispatcher.timers.clear()
-        cb0()
+        for (cb0, d0) in pending:     # a deferral with RetryTimeout 0 may also run the delegate directly
+            cb0()
         cb = eng.task_dispatcher.calls[0][2]
         del log[:]
         cb({"errorType": "E1", "errorMessage": "m"})
